@@ -82,3 +82,15 @@ A_PRE = ('A-bs4-preorder: el.descendants is the pre-order flattening of el\'s su
          'sibling follows it immediately, next_element of its last descendant is what follows (None only at the very end), no node occurs twice; instantiated per term by '
          'the get_descendants proof and validated natively on every node of every corpus tree on every run. desc_spec is the name callers use for the result of this pure '
          'function; what is proved about it is desc_def (pre-order, iframe subtrees passed over)')
+
+CP = 'soupsieve.css_parser.CSSParser.'
+PARSE_SMALL = [CP + 'parse_class_id@id', CP + 'parse_class_id@class', CP + 'parse_pseudo_dir', CP + 'parse_pseudo_lang', CP + 'parse_pseudo_contains']
+A_TOK = ('parse_* contracts: the match object is any match of the token pattern with its look-arounds dropped (a superset of the real matches, so what is proved of '
+         'all of them holds of the real ones); each token finditer yields is such a match at its start offset; warnings.warn returns None (default filters); '
+         'structural obligations C06.S-token-flags/-token-table/-dispatch tie the sidecar patterns to SelectorPattern and to the dispatch in parse_selectors; '
+         'parse_selectors, parse_attribute_selector, parse_pseudo_class(_custom), parse_pseudo_nth, parse_pseudo_open, the combinator methods and selector_iter are not under discharged contracts')
+
+
+def dispatch_structural(ctx):
+    from pyvc import structural
+    return structural.C06_dispatch(ctx)
